@@ -2,7 +2,7 @@
    Only statements; proofs are in Proofs/PublishProof.v.  Model/Publish.v is the step-level model of the repaired code;
    props/c05.py drives the real gateway through the same steps (verifhook yield points) and compares. *)
 From Coq Require Import List Arith Bool.
-From VGW Require Import Model.Publish Proofs.PublishProof.
+From VGW Require Import Model.Publish Proofs.PublishProof Gen.LinkCalls Check.LinkOnceCheck.
 Import ListNotations.
 
 (* For every set of concurrent requests on one key and EVERY interleaving of their filesystem steps: *)
@@ -58,3 +58,9 @@ Example C05_old_protocol_missing : nth_error (snd (orun (ofs1, [OW 1 0 0; OR 0 N
 Proof. vm_compute. reflexivity. Qed.
 Example C05_old_protocol_mixture : nth_error (snd (orun (ofs1, [OW 1 0 0; OR 0 None None]) [1; 1; 0; 0; 0; 1])) 1 = Some (OR 3 (Some 7) (Some (OGot (Some 7) 1))).
 Proof. vm_compute. reflexivity. Qed.
+
+(* the source fact behind "one publishing step per write" (table regenerated from backend/posix/posix.go on every run): every
+   function that publishes a temporary file calls link() exactly once *)
+Theorem C05_publishes_once : link_once posix_link_calls = true.
+Proof. vm_compute. reflexivity. Qed.
+Print Assumptions C05_publishes_once.
